@@ -195,6 +195,19 @@ func rulePrinterTwins(c *Ctx) []Obligation {
 			continue
 		}
 		sa, sp := travSkeletonOf(m.pA, m, fa), travSkeletonOf(m.pP, m, fp)
+		// tokens printed by the String() methods of component structs (arms, fields, literals
+		// wrappers …) belong to the construct's text as well: `_` may be printed by the match
+		// expression itself on one side and by a literal wrapper on the other
+		// (only consulted when the direct comparison finds a difference: component printers
+		// of derived fields, e.g. a recorded callback signature, exist on one side only)
+		if len(travSetDiff(sp.words, sa.words))+len(travSetDiff(sa.words, sp.words))+len(travSetDiff(sp.puncts, sa.puncts))+len(travSetDiff(sa.puncts, sp.puncts)) > 0 {
+			sa2, sp2 := travSkeletonOf(m.pA, m, fa), travSkeletonOf(m.pP, m, fp)
+			travAddComponents(m.pA, m, a.T, sa2, map[*types.Named]bool{a.T: true}, 0)
+			travAddComponents(m.pP, m, p.T, sp2, map[*types.Named]bool{p.T: true}, 0)
+			if len(travSetDiff(sp2.words, sa2.words))+len(travSetDiff(sa2.words, sp2.words))+len(travSetDiff(sp2.puncts, sa2.puncts))+len(travSetDiff(sa2.puncts, sp2.puncts)) == 0 {
+				sa.words, sa.puncts, sp.words, sp.puncts = sa2.words, sa2.puncts, sp2.words, sp2.puncts
+			}
+		}
 		var problems []string
 		for _, w := range travSetDiff(sp.words, sa.words) {
 			problems = append(problems, fmt.Sprintf("keyword `%s` is printed by %s.String only", w, p.Short()))
@@ -240,4 +253,50 @@ func rulePrinterTwins(c *Ctx) []Obligation {
 		obs = append(obs, ob)
 	}
 	return obs
+}
+
+// travAddComponents unions into sk the keyword/punctuation tokens of the String()
+// methods of the struct-typed components of t (through slices, pointers and
+// maps), excluding components that are AST interface values (their own kinds).
+func travAddComponents(p *packages.Package, m *travModel, t *types.Named, sk *travSkeleton, seen map[*types.Named]bool, depth int) {
+	if depth > 3 || t == nil {
+		return
+	}
+	st, ok := t.Underlying().(*types.Struct)
+	if !ok {
+		return
+	}
+	var comp func(tt types.Type) *types.Named
+	comp = func(tt types.Type) *types.Named {
+		switch x := types.Unalias(tt).(type) {
+		case *types.Pointer:
+			return comp(x.Elem())
+		case *types.Slice:
+			return comp(x.Elem())
+		case *types.Map:
+			return comp(x.Elem())
+		case *types.Named:
+			if _, isStruct := x.Underlying().(*types.Struct); isStruct && x.Obj().Pkg() == t.Obj().Pkg() {
+				return x
+			}
+		}
+		return nil
+	}
+	for i := 0; i < st.NumFields(); i++ {
+		n := comp(st.Field(i).Type())
+		if n == nil || seen[n] {
+			continue
+		}
+		seen[n] = true
+		if fd := FuncDecl(p, n.Obj().Name(), "String"); fd != nil && fd.Body != nil {
+			sub := travSkeletonOf(p, m, fd)
+			for w := range sub.words {
+				sk.words[w] = true
+			}
+			for w := range sub.puncts {
+				sk.puncts[w] = true
+			}
+		}
+		travAddComponents(p, m, n, sk, seen, depth+1)
+	}
 }
